@@ -225,29 +225,33 @@ NUM_PRIOS = [p for p in SMALL_PRIOS if p is not None] + [1e-7, 2e-7, 0.3, 0.1 + 
 
 class C10(Property):
     PID = 'C10'
-    QUICK_BUDGET_S = 38
+    QUICK_BUDGET_S = 50
     THOROUGH_BUDGET_S = 600
-    RULE = ('a case is one whole history. kind Q: add/re-add/remove/pop/peek/len (without default and with each of 12 default objects incl. None, 0, False, '', (), [] - positional and by keyword) run on '
+    RULE = ('a case is one whole history. kind Q: add/re-add/remove/pop/peek/len (without default and with each of 12 default objects incl. None, 0, False, '', (), [] - positional and by keyword - '
+            'and with a TASK OBJECT of the history as default: the very object stored in the queue (None with pop(None), a small int / interned string used as task and as default) or an equal distinct one) run on '
             'SortedPriorityQueue and HeapPriorityQueue with BarrelList._size_factor set to sf (1,2,3,4,6 force many '
             'sub-lists at small sizes; 1520 = shipped value), every return value / exception class recorded, most '
-            'histories end with a full drain. Arguments: tasks of mixed types with aliases (1/1.0/True) and the FALSY '
-            'tasks 0/False/0.0, None, \'\', (), frozenset(), b\'\'; priorities None / omitted / keyword, bool, int (also '
+            'histories end with a full drain. Arguments: tasks of mixed types with aliases (1/1.0/True), the FALSY '
+            'tasks 0/False/0.0, None, \'\', (), frozenset(), b\'\' and objects with an unusual protocol (falsy + len 0 + unorderable; constant hash); '
+            'every call form (add(t), add(t, p), add(t, priority=p), add(task=t, priority=p), add(priority=p, task=t), add(task=t), remove(t), remove(task=t), pop/peek(d), pop/peek(default=d)); priorities None / omitted / keyword, bool, int (also '
             'beyond 2**53), float (also differing only at 1e-9), Fraction, Decimal; optionally a custom priority_key '
             '(4 functions) and a SECOND instance of the same class, created first, with its own key, working interleaved '
             '(checked by the oracle as well). kind B: BarrelList driven directly with the calls the sorted queue makes '
             '(insert at 0..len, pop(0), bl[i] for i<len, len). kind H: the standard library heapq.heappush/heappop (what '
-            'HeapPriorityQueue runs on) on a list of small ints, the whole list observed after every call. Order of generation: ~60 hand-written '
-            'micro histories (unusual arguments, undrained queue then a fresh one, peek/remove/peek, tombstone left '
-            'behind an emptied queue, keys, twin instance), 150 flavoured random histories, adversarial small, all H '
-            'histories <= 5 ops over 3 values + 400 random, all Q histories <= 3 ops over two falsy tasks, all Q '
+            'HeapPriorityQueue runs on) on a list of small ints, the whole list observed after every call. Order of generation: ~115 hand-written '
+            'micro histories (identity coincidences first; unusual arguments, undrained queue then a fresh one, peek/remove/peek, tombstone left '
+            'behind an emptied queue, keys, twin instance), all histories <= 2 ops with a task object as default, CHURN histories (a bounded task set '
+            're-prioritised / removed and re-added until the backend holds ~1.3x / 3.3x thr entries, three quarters of them superseded, then drained; '
+            'thr = 16..512, styles re-add only / same priority / remove+add / mixed with pops), 150 flavoured random histories, adversarial small, all H '
+            'histories <= 5 ops over 3 values + 400 random, all Q histories <= 3 ops over two falsy tasks, all <= 3 ops with task-object defaults (3 task pairs), all Q '
             'histories of <= 4 ops over 2 tasks x 2 priorities (+drain) at sf=1, all B histories <= 6 ops at sf 1,2; '
             'adversarial large (ascending = insert at the very end, descending, all-equal, re-add storms, tombstones '
-            'at the head); large queues (model-checked up to MODEL_MAX adds, beyond that oracle only: 25k quick / 60k '
-            'thorough entries at the shipped size factor); seeded random histories (3-400 ops, many equal priorities). '
+            'at the head); churn at thr = 1000..8192 (up to 17k ops; three of them, up to 4.3k adds, replayed by the model); large queues (model-checked up to MODEL_MAX adds, beyond that oracle only: 25k mixed + 62k RANDOM-priority entries quick (7 sub-lists, splits of inner sub-lists, > 65536 adds) / 60k + 70k '
+            'thorough at the shipped size factor); seeded random histories (3-400 ops, many equal priorities). '
             'Non-trivial = Q: sorted backend split into >= 2 sub-lists AND a pop was decided by FIFO among equal '
             'priorities AND a re-add or remove happened; B: >= 2 sub-lists; H: >= 4 calls. distinct = distinct histories.')
     ASSUMPTIONS = [
-        'tasks are hashable with == consistent with hash; priorities are None or real numbers incl. the float infinities (no NaN, '
+        'tasks are hashable with == consistent with hash (their truth value, len and ordering are free); priorities are None or real numbers incl. the float infinities (no NaN, '
         '|int| < 2**1024); priority_key = the documented default (-float(priority or 0)) or one of 4 total functions',
         'the Lean driver receives every None/bool/int/float priority as passed to add() (floats as their exact dyadic '
         'value; +-inf as +-2**1100, an order-preserving stand-in) and evaluates float(priority or 0) itself; only for Fraction/Decimal priorities and for a custom '
@@ -456,21 +460,25 @@ class C10(Property):
         else:
             def prio(t):
                 return rng.randrange(100)
-        ops = [['a', 10 + i, prio(i)] for i in range(L)]
+        odd = rng.random() < 0.5        # a few of the tasks are None / 0 / '' / () / objects with an unusual protocol
+
+        def tid(i):
+            return ODD_IDS[i] if odd and i < len(ODD_IDS) else 10 + i
+        ops = [['a', tid(i), prio(i)] for i in range(L)]
         adds, target, gone = L, int(thr * factor) + 8, []
         while adds < target:
             r = rng.random()
             t = rng.randrange(L)
             if style in ('readd', 'same') or r < 0.55:
-                ops.append(['a', 10 + t, prio(t)])
+                ops.append(['a', tid(t), prio(t)])
                 adds += 1
             elif r < 0.8 or style == 'remove':
                 if gone and rng.random() < 0.6:
                     t = gone.pop(rng.randrange(len(gone)))
-                    ops.append(['a', 10 + t, prio(t)])
+                    ops.append(['a', tid(t), prio(t)])
                     adds += 1
                 else:
-                    ops.append(['r', 10 + t])
+                    ops.append(['r', tid(t)])
                     gone.append(t)
             elif r < 0.9:
                 ops.append(['p'])
@@ -479,7 +487,8 @@ class C10(Property):
             else:
                 ops.append(['n'])
         ops += [['n'], ['k']] + [['p']] * (L + 1) + [['P', 1, 1], ['n']]
-        case = {'k': 'Q', 'sf': rng.choice([4, 1520, 1520]), 'ops': ops}
+        # a small size factor only for small backends (thousands of sub-lists make every index translation slow)
+        case = {'k': 'Q', 'sf': rng.choice([4, 1520, 1520]) if thr <= 1024 else 1520, 'ops': ops}
         if model:
             case['model'] = 1       # replayed by the Lean driver although longer than MODEL_MAX adds
         return case
@@ -501,7 +510,7 @@ class C10(Property):
             yield self.churn(rng, 2048, 'mixed', factor=3.3)
             yield self.churn(rng, 4096, 'readd', factor=2.4)
         else:
-            for thr in (8192, 10000, 16384, 32768, 65536):
+            for thr in (8192, 10000, 16384, 32768) + ((65536,) if self.thorough else ()):
                 for style in ('readd', 'mixed'):
                     yield self.churn(rng, thr, style, factor=1.3)
             yield self.churn(rng, 16384, 'readd', factor=3.3)
@@ -696,9 +705,9 @@ class C10(Property):
         entries, a split of a sub-list that is NOT the last one needs ~45k entries whose priorities are not
         monotone) are oracle-only"""
         plan = [(1000, 4), (1200, 1520)] if not self.thorough else [(4000, 4), (4000, 1520), (2500, 1)]
-        big = [(25000, 'mixed'), (52000, 'random')] if not self.thorough else [(60000, 'mixed'), (30000, 'mixed'), (70000, 'random')]
+        big = [(25000, 'mixed'), (62000, 'random')] if not self.thorough else [(60000, 'mixed'), (30000, 'mixed'), (70000, 'random')]
         if deep:
-            plan, big = [(1200, 1520)], [(52000, 'random'), (25000, 'mixed'), (64000, 'fewrandom')]
+            plan, big = [(1200, 1520)], [(62000, 'random'), (25000, 'mixed'), (64000, 'fewrandom')]
         for n, sf in plan + [(b, 1520) for b in big]:
             if isinstance(n, tuple):
                 n, style = n
